@@ -75,10 +75,14 @@ def strategy_impl(draw, tier):
     per_column_levels = draw(st.booleans()) if lead else False
     nsets = ncol if per_column_levels else 1
     levels = [draw(st.lists(cands, min_size=nlev, max_size=nlev)) for _ in range(nsets)]
-    phi = draw(gen.data_values(lead + [L]))
+    # the transformed data itself is float64 mostly, single precision (the usual model output) now and then: the interpolation
+    # knots and levels are properties of target_data / target, whatever the precision of the data
+    phi_dtype = draw(st.sampled_from(["float64", "float64", "float64", "float32"]))
+    phi = draw(gen.data_values(lead + [L], elements=st.integers(-512, 512).map(lambda k: k / 8.0) if phi_dtype == "float32" else None))
     level = draw(st.sampled_from(["kernel", "api", "api"]))
     case = {"L": L, "lead": lead, "method": method, "bypass": bypass, "shared": shared, "thetas": thetas, "levels": levels,
-            "per_column_levels": per_column_levels, "phi": phi, "mask_edges": draw(st.booleans()), "level": level, "theta_dtype": theta_dtype}
+            "per_column_levels": per_column_levels, "phi": phi, "mask_edges": draw(st.booleans()), "level": level, "theta_dtype": theta_dtype,
+            "phi_dtype": phi_dtype}
     if level == "api":
         case["api"] = {
             "pos": draw(st.sampled_from(["center", "center", "left", "outer"])),
@@ -161,8 +165,9 @@ def check(case, ctx):
     L = case["L"]
     exp, thetas, levels = reference(case)
     ncol = len(thetas)
-    tol = error_bound(case, thetas, 1e-14 if case["method"] == "linear" else 1e-12)
-    phi = np.asarray(case["phi"], dtype=np.float64).reshape(tuple(lead) + (L,))
+    pdt = np.dtype(case.get("phi_dtype", "float64"))
+    tol = error_bound(case, thetas, (1e-14 if case["method"] == "linear" else 1e-12) if pdt == np.float64 else 2e-6)
+    phi = np.asarray(case["phi"], dtype=np.float64).reshape(tuple(lead) + (L,)).astype(pdt)
     tdt = case.get("theta_dtype", "float64")
     theta_full = np.array(thetas, dtype=np.float64).reshape(tuple(lead) + (L,)).astype(tdt)
     log = case["method"] == "log"
@@ -173,12 +178,12 @@ def check(case, ctx):
             for c in range(ncol):
                 got = np.asarray(must_return("interp_1d_linear", interp_1d_linear, phi.reshape(ncol, L)[c], theta_full.reshape(ncol, L)[c],
                                              np.array(levels[c], dtype=np.float64), case["mask_edges"], case["bypass"], log))
-                compare(got, exp.reshape(ncol, -1)[c], "kernel (single column)", tol)
+                compare(got.astype(np.float64), exp.reshape(ncol, -1)[c], "kernel (single column)", tol)
         else:
             th_arg = np.array(thetas[0]).astype(tdt) if (case["shared"] and lead) else theta_full
             got = np.asarray(must_return("interp_1d_linear", interp_1d_linear, phi, th_arg, np.array(levels[0], dtype=np.float64),
                                          case["mask_edges"], case["bypass"], log))
-            compare(got, exp, "kernel (all columns)", tol)
+            compare(got.astype(np.float64), exp, "kernel (all columns)", tol)
             # column independence: one column at a time gives the same rows
             flat = got.reshape(ncol, -1)
             for c in range(min(ncol, 3)):
@@ -193,7 +198,7 @@ def check(case, ctx):
     unsorted_lv = any(list(lv) != sorted(lv) for lv in levels)
     lo_hi = [(min(t), max(t)) for t in thetas]
     edge = any(lv <= lo or lv >= hi for (lo, hi), lvs in zip(lo_hi, levels) for lv in lvs)
-    classes = [f"level:{case['level']}", f"theta:{case.get('theta_dtype', 'float64')}", f"method:{case['method']}", f"mask:{case['mask_edges']}", f"bypass:{case['bypass']}",
+    classes = [f"level:{case['level']}", f"theta:{case.get('theta_dtype', 'float64')}", f"data:{pdt.name}", f"method:{case['method']}", f"mask:{case['mask_edges']}", f"bypass:{case['bypass']}",
                f"nlev:{len(levels[0])}", f"ncol:{min(ncol, 4)}"]
     if dec:
         classes.append("decreasing")
